@@ -44,6 +44,8 @@ fn payload(i: usize, class: &str, seed: u64) -> String {
         s.truncate(len);
         return s;
     }
+    // `E`: empty and one-byte items (a batch of them carries fewer payload bytes than it has members); identified by position
+    if class == "E" { return if i % 3 == 1 { "a".to_string() } else { String::new() }; }
     let body = match class { "s" => 0usize, "m" => 300, _ => 20_000 };
     let mut r = Rng::new(seed, &format!("item{i}"));
     let filler: String = (0..body).map(|_| (b'a' + r.below(26) as u8) as char).collect();
@@ -102,7 +104,8 @@ async fn run_case(addr: SocketAddr, certs: &Certs, t: &[&str], seed: u64) -> any
         "bytes" => drive!(BytesCodec, BytesCodec, |s: &String| s.clone().into_bytes(), |v: Vec<u8>| String::from_utf8_lossy(&v).to_string()),
         _ => drive!(BincodeCodec::<(u32, String)>::default(), BincodeCodec::<(u32, String)>::default(), |s: &String| (7u32, s.clone()), |v: (u32, String)| v.1),
     };
-    let idx: Vec<String> = got.iter().map(|g| match index_of(g) { Some(i) if items.get(i) == Some(g) => i.to_string(), _ => "?".to_string() }).collect();
+    let idx: Vec<String> = if class == "E" { got.iter().enumerate().map(|(k, g)| if items.get(k) == Some(g) { k.to_string() } else { "?".to_string() }).collect() }
+        else { got.iter().map(|g| match index_of(g) { Some(i) if items.get(i) == Some(g) => i.to_string(), _ => "?".to_string() }).collect() };
     Ok(format!("{} errs={errs}{}{}", if idx.is_empty() { "-".to_string() } else { idx.join(",") },
         if refused.is_empty() { String::new() } else { format!(" refused={}", refused.iter().map(|i| i.to_string()).collect::<Vec<_>>().join(",")) },
         if finish_err { " finish=err" } else { "" }))
@@ -170,6 +173,10 @@ pub fn run(cfg: &Cfg) {
             }
         }
         cases.push("pp string - 3:60000 7 s n".into());
+        // empty and one-byte messages, alone and in batches
+        for (codec, algo) in [("string", "-"), ("bytes", "-"), ("bytes", "zstd:bal"), ("string", "gzip:bal"), ("bytes", "lz4:-")] {
+            for b in ["-", "4:60000", "3:60000", "100:60000"] { cases.push(format!("pp {codec} {algo} {b} 7 E y")); }
+        }
         // the sink driven with feed(): nothing is flushed before finish(), which has to hand over whatever was accepted -
         // frames sitting in the framed writer, a batch that filled up on the last poll_ready, a partial batch
         for (codec, algo) in [("string", "-"), ("bytes", "zstd:bal"), ("bincode", "-"), ("string", "lz4:-")] {
